@@ -8,11 +8,11 @@ Local Open Scope Z_scope.
 Definition sym_addr_of (offset : Z) (e : esym) : Z := (e_value e + offset) mod W64.
 
 (* ------------------------------------------------------------------ load_symbol *)
-Lemma load_symbols_from : forall offset l prev s, In s (load_symbols offset prev l) ->
+Lemma load_symbols_from : forall oa offset l prev s, In s (load_symbols oa offset prev l) ->
   exists e, In e l /\ loadable e = true /\
             s = mkSym (sym_addr_of offset e) (e_size e mod W32) (symtype_of e) (e_name e).
 Proof.
-  induction l as [|h r IH]; intros prev s H; [destruct H|]. cbn [load_symbols] in H.
+  intros oa offset. induction l as [|h r IH]; intros prev s H; [destruct H|]. cbn [load_symbols] in H.
   destruct (loadable h && negb (prev =? e_value h)) eqn:E.
   - destruct H as [<-|H].
     + exists h. apply andb_prop in E. repeat split; [now left | tauto].
@@ -23,9 +23,9 @@ Qed.
 (* aliases (a symbol whose value equals the previously loaded one) are dropped, but their address
    stays represented *)
 Lemma load_symbols_covers : forall offset l prev e, In e l -> loadable e = true ->
-  (exists s, In s (load_symbols offset prev l) /\ s_addr s = sym_addr_of offset e) \/ prev = e_value e.
+  (exists s, In s (load_symbols true offset prev l) /\ s_addr s = sym_addr_of offset e) \/ prev = e_value e.
 Proof.
-  induction l as [|h r IH]; intros prev e Hin Hl; [destruct Hin|]. cbn [load_symbols].
+  intros offset. induction l as [|h r IH]; intros prev e Hin Hl; [destruct Hin|]. cbn [load_symbols].
   destruct (loadable h && negb (prev =? e_value h)) eqn:E.
   - left. destruct Hin as [<-|Hin].
     + eexists. split; [now left | reflexivity].
@@ -115,10 +115,10 @@ Lemma load_symtab_relative : forall vaddr0 syms s,
   In s (load_symtab true 0 vaddr0 syms) ->
   exists e, In e syms /\ loadable e = true /\ s_addr s = e_value e - vaddr0.
 Proof.
-  intros vaddr0 syms s Hr Hin. unfold load_symtab in Hin.
+  intros vaddr0 syms s Hr Hin. unfold load_symtab, load_symtab_gen in Hin.
   destruct (dedup_from _ _ Hin) as (s0 & H0 & Ha & _).
   apply (Permutation_in _ (sort_syms_perm _)) in H0.
-  destruct (load_symbols_from _ _ _ _ H0) as (e & He & Hl & ->).
+  destruct (load_symbols_from _ _ _ _ _ H0) as (e & He & Hl & ->).
   exists e. repeat split; auto. rewrite Ha. cbn [s_addr].
   specialize (Hr e He Hl). unfold sym_addr_of, elf_offset.
   replace (0 - vaddr0) with (- vaddr0) by lia. rewrite Zplus_mod_idemp_r. apply Z.mod_small. lia.
@@ -131,7 +131,7 @@ Lemma load_symtab_complete : forall vaddr0 syms e,
   In e syms -> loadable e = true ->
   exists s, In s (load_symtab true 0 vaddr0 syms) /\ s_addr s = e_value e - vaddr0.
 Proof.
-  intros vaddr0 syms e Hr Hin Hl. unfold load_symtab.
+  intros vaddr0 syms e Hr Hin Hl. unfold load_symtab, load_symtab_gen.
   destruct (load_symbols_covers (elf_offset true 0 vaddr0) syms (-1) e Hin Hl) as [(s & A & B)|Heq].
   2:{ specialize (Hr e Hin Hl). lia. }
   apply (Permutation_in _ (Permutation_sym (sort_syms_perm _))) in A.
@@ -143,7 +143,7 @@ Qed.
 (* one entry per address, in address order *)
 Lemma load_symtab_strictly_sorted : forall adj offset0 vaddr0 syms,
   strictly_sorted (load_symtab adj offset0 vaddr0 syms) = true.
-Proof. intros. unfold load_symtab. apply dedup_sorted. apply sort_syms_sorted. Qed.
+Proof. intros. unfold load_symtab, load_symtab_gen. apply dedup_sorted. apply sort_syms_sorted. Qed.
 
 (* a strictly sorted table whose symbols do not reach into the next one is a table the lookup
    theorems apply to *)
@@ -160,3 +160,20 @@ Example dedup_example :
   dedup_syms [mkSym 16 4 84 [95;120]; mkSym 16 8 119 [121]; mkSym 32 4 84 [122]] =
   [mkSym 16 8 119 [121]; mkSym 32 4 84 [122]].
 Proof. vm_compute. reflexivity. Qed.
+
+(* the same for load_symtab AS BUILT: the flag says whether the C text assigns prev_sym_value only
+   under `if (load_symbol(...))` *)
+Lemma load_symtab_complete_as_built : forall vaddr0 syms e,
+  (forall e, In e syms -> loadable e = true -> 0 <= vaddr0 <= e_value e /\ e_value e < W64) ->
+  In e syms -> loadable e = true ->
+  exists s, In s (load_symtab_gen symtab_prev_only_accepted true 0 vaddr0 syms) /\ s_addr s = e_value e - vaddr0.
+Proof. change symtab_prev_only_accepted with true. exact load_symtab_complete. Qed.
+
+(* the alias rule must compare with the last ACCEPTED entry: comparing with the previous ELF entry
+   drops a function that follows a label (NOTYPE, size 0) with the same value *)
+Lemma alias_of_rejected_refuted :
+  let syms := [mkESym 4198400 0 0 0 14 [108;97;98;101;108]; mkESym 4198400 16 2 0 14 [104;101;108;112;101;114];
+               mkESym 4198416 8 2 1 14 [109;97;105;110]] in
+  load_symtab_gen false true 0 4194304 syms = [mkSym 4112 8 84 [109;97;105;110]] /\
+  load_symtab_gen true true 0 4194304 syms = [mkSym 4096 16 116 [104;101;108;112;101;114]; mkSym 4112 8 84 [109;97;105;110]].
+Proof. vm_compute. split; reflexivity. Qed.
